@@ -815,6 +815,8 @@ impl CatalogPersistence {
 
         let mut file = File::create(path)
             .wrap_err_with(|| format!("failed to create catalog file at '{}'", path.display()))?;
+        #[cfg(kahflane_turdb_verif)]
+        crate::verif_hooks::io_event(4, path, 0, 0);
 
         let mut header = vec![0u8; HEADER_SIZE];
 
@@ -843,12 +845,18 @@ impl CatalogPersistence {
 
         file.write_all(&header)
             .wrap_err("failed to write file header")?;
+        #[cfg(kahflane_turdb_verif)]
+        crate::verif_hooks::io_event(8, path, 0, HEADER_SIZE as u64);
 
         file.write_all(&catalog_bytes)
             .wrap_err("failed to write catalog data")?;
+        #[cfg(kahflane_turdb_verif)]
+        crate::verif_hooks::io_event(8, path, HEADER_SIZE as u64, catalog_length);
 
         file.sync_all()
             .wrap_err("failed to sync catalog file to disk")?;
+        #[cfg(kahflane_turdb_verif)]
+        crate::verif_hooks::io_event(2, path, 0, 0);
 
         Ok(())
     }
